@@ -36,7 +36,8 @@ REPLAY_DIR = os.path.join(HERE, "replays")
 def _job(args):
     """One worker: runs its share of one part until the deadline / count cap."""
     prop, part_i, worker, nworkers, seconds, seed, tier = args
-    faulthandler.dump_traceback_later(seconds + 240, exit=True)
+    # watchdog against hangs only (a loaded machine can slow a complete sweep down many times over)
+    faulthandler.dump_traceback_later(seconds * 3 + 900, exit=True)
     part = registry.parts(prop)[part_i]
     t0 = time.time()
     deadline = t0 + seconds
